@@ -5,6 +5,9 @@ Tie to the code:
     lambda and its initial value, `_UnconditionalPlanar.get_act_scale`, one row of `WeightNormalization.unwrap` and its
     `scale_init`, the mixture's `log_softmax` lambda and `log(weights)`; Gen/Leaves.lean: SoftPlus/Loc kernels; Gen/Combinators.lean:
     Chain) and the theorems of Props/C11.lean are about those definitions;
+  * the wrappers' `.unwrap()` bodies are REGENERATED too (Gen/Wrappers.lean, typing sheet targets_wrappers.py, translator py2nd.py):
+    matrix-level and rank-3 `WeightNormalization.unwrap`, `Where.unwrap`, `BijectionReparam.__init__` / `unwrap`; they are run against the
+    real `unwrap` on matrices / batches of many shapes by `tools/props/wrapgen.py` (shared with C12);
   * the hand-written glue (Model/Params.lean: BijectionReparam, how each constructor composes the kernels, `_to_triangular`, the
     `eqx.error_if` predicates) is run here at Float against the REAL objects: every raw array is perturbed inside the ±50 box and read
     back through `unwrap` / the public accessors; constructor round trips over magnitudes 1e-6..1e6; constructor calls at the edge of
@@ -33,7 +36,7 @@ import vlib
 from vlib import b2f, b2fs, f2b, fs2b
 
 ID = "C11"
-GEN = ["Params", "Leaves", "Combinators"]
+GEN = ["Params", "Leaves", "Combinators", "Wrappers"]
 RULE = ("real flowjax objects (Affine, Scale, Normal, StudentT, TriangularAffine both orientations, RationalQuadraticSpline over "
         "knots/interval/softmax_adjust/min_derivative, _UnconditionalPlanar and Planar, VmapMixture, WeightNormalization built directly, "
         "_affine_with_min_scale) whose raw trainable arrays are overwritten with values from the ±50 box (all-(+50), all-(-50), "
@@ -50,6 +53,9 @@ RULE = ("real flowjax objects (Affine, Scale, Normal, StudentT, TriangularAffine
 TRUSTED = [
     "Lean 4.33 kernel; Mathlib v4.33; axioms propext, Classical.choice, Quot.sound",
     "py2lean translator + typing sheets tools/py2lean/targets_params.py, targets_leaves.py, targets_comb.py (validated by this correspondence)",
+    "py2nd translator (nested-array broadcasting, keepdims reductions) + typing sheet targets_wrappers.py: scale of a WeightNormalization has the keepdims "
+    "shape of the norms; bijection._vectorize.transform/inverse is the per-element transform/inverse; eqx.error_if returns its value when it does not raise "
+    "(validated by tools/props/wrapgen.py on every run)",
     "Prelude/Jnp.lean specs of softmax/logSoftmax/cumsum/setItem/pad1/getItem/dot/sum (validated by this correspondence)",
     "Model/Params.lean: BijectionReparam, constructor composition, _to_triangular, error_if predicates (hand-written, validated here)",
     "jnp.linalg.cholesky returns a lower-triangular factor with positive diagonal and L Lᵀ = covariance (LAPACK, not modelled)",
@@ -357,6 +363,10 @@ def corr(c, tier, rng):
         bad = raises(lambda: B.Permute(jnp.asarray(p)))
         T.add("guard-permute", f"par perm {vlib.ints(p)}", "B", [bad], sorted(p) != list(range(n)), (tuple(p), (n,)), perm=p, shape=(n,))
     T.run()
+    # ---- the `.unwrap()` bodies generated from flowjax/wrappers.py (Gen/Wrappers.lean: matrix- and batch-level weight normalisation,
+    #      Where, BijectionReparam constructor + unwrap) against the real `unwrap` (shared with C12)
+    from props import wrapgen
+    wrapgen.corr_generated(c, tier, rng)
 
 
 # ------------------------------------------------------------------ the property's oracle on the real code
